@@ -104,7 +104,9 @@ def assemble(n, dr, kT, dias, length, om_self, pots, split, eta, clo_draw, metho
         om_self[0] = ['Diblock', {'NA': NA, 'NB': NB, 'l': l, 'part': 'AA'}]
         om_self[1] = ['Diblock', {'NA': NA, 'NB': NB, 'l': l, 'part': 'BB'}]
     w = w / w.sum()
-    spec = {'types': NAMES[:n], 'kT': kT, 'domain': {'length': int(length), 'dr': dr}, 'dia': list(dias),
+    # type names are arbitrary labels: not always the default letters in alphabetical order
+    names = [NAMES, ['C', 'A', 'B'], ['solvent', 'polymer', 'np'], NAMES][(int(length) // 4 + n) % 4][:n]
+    spec = {'types': list(names), 'kT': kT, 'domain': {'length': int(length), 'dr': dr}, 'dia': list(dias),
             'eta': [float('%.12g' % (eta * f)) for f in w], 'omega': {}, 'potential': {}, 'closure': {}, 'method': method}
     names = ['PY'] * 6 + ['MSA'] * 3 + ['HNC'] * 4 + ['MS']
     for idx, (i, j) in enumerate(pair_indices(n)):
